@@ -458,4 +458,145 @@ theorem bucketRange_eq (v s : Int) (hs : 0 < s) (hv : inInt64 v = true) (hs64 : 
     rw [wrap64_id (by i64) (by i64)]; omega
   simp only [e1, e2]
 
+/-! ### lookup tables -/
+
+/-- What one line of the table text contributes: nothing for a comment line or a line with 0 or
+    more than 2 fields, `(key, "")` for one field, `(key, value)` for two. -/
+def lineEntry (commentPrefix line : Bytes) : Option (Bytes × Bytes) :=
+  if !commentPrefix.isEmpty && commentPrefix.isPrefixOf line then none
+  else match Misc.fieldsAscii line [] with
+    | [k] => some (k, [])
+    | [k, v] => some (k, v)
+    | _ => none
+
+theorem lookupStep_eq (p : Bytes) (tbl : List (Bytes × Bytes)) (line : Bytes) :
+    Misc.lookupStep p tbl line = tbl ++ (lineEntry p line).toList := by
+  unfold Misc.lookupStep lineEntry
+  split
+  · simp
+  · generalize Misc.fieldsAscii line [] = fs
+    match fs with
+    | [] => simp
+    | [_] => simp
+    | [_, _] => simp
+    | _ :: _ :: _ :: _ => simp
+
+theorem table_eq_filterMap (p : Bytes) : ∀ (lines : List Bytes) (tbl : List (Bytes × Bytes)),
+    lines.foldl (Misc.lookupStep p) tbl = tbl ++ lines.filterMap (lineEntry p)
+  | [], tbl => by simp
+  | l :: rest, tbl => by
+    rw [List.foldl_cons, table_eq_filterMap p rest, lookupStep_eq]
+    cases h : lineEntry p l <;> simp [h]
+
+theorem tableGet_none_iff (tbl : List (Bytes × Bytes)) (k : Bytes) :
+    Misc.tableGet tbl k = none ↔ ∀ e ∈ tbl, e.1 ≠ k := by
+  unfold Misc.tableGet
+  simp [List.find?_eq_none]
+
+theorem tableGet_hit (pre post : List (Bytes × Bytes)) (k v : Bytes) (h : ∀ e ∈ post, e.1 ≠ k) :
+    Misc.tableGet (pre ++ [(k, v)] ++ post) k = some v := by
+  unfold Misc.tableGet
+  have hpost : post.reverse.find? (fun e => e.1 == k) = none := by
+    simp [List.find?_eq_none]; exact fun a b hab => h (a, b) hab
+  simp [List.reverse_append, List.find?_append, hpost]
+
+theorem lookup_call (c : Ctx) (render : Option Bytes → Bytes) (key : Arg) (content : Bytes)
+    (hm : Misc.lookupModelled content = true) :
+    callHelper (Misc.lookupBuilder render) [key, .const content] c =
+      .ok (render (Misc.tableGet (Misc.buildLookupTable content []) (key.val c))) := by
+  simp only [callHelper, Misc.lookupBuilder, List.map, List.length_cons, List.length_nil]
+  simp [Arg.probe_const, evalStageIndexOrDefault, hm, ok, run_bind, Arg.run_stage, run_pure]
+
+/-! ### select -/
+
+def WordB (c : UInt8) : Prop := c ≠ 32 ∧ c ≠ 9 ∧ c ≠ 10 ∧ c ≠ 0 ∧ c ≠ 34
+
+theorem wordB_facts {c : UInt8} (h : WordB c) : Strings.isSelDelim c = false ∧ (c == 34) = false := by
+  obtain ⟨h1, h2, h3, h4, h5⟩ := h
+  simp [Strings.isSelDelim, h1, h2, h3, h4, h5]
+
+/-- Inside a word nothing happens. -/
+theorem sel_word (s : Bytes) (idx : Int) : ∀ (u tail : Bytes) (i : Nat) (st : Strings.SelSt),
+    (∀ c ∈ u, WordB c) → st.quoted = false → st.inDelim = false →
+    Strings.selLoop s idx (u ++ tail) i st = Strings.selLoop s idx tail (i + u.length) st
+  | [], tail, i, st, _, _, _ => by simp
+  | c :: u, tail, i, st, h, hq, hd => by
+    obtain ⟨f1, f2⟩ := wordB_facts (h c (by simp))
+    have ih := sel_word s idx u tail (i + 1) st (fun d hd' => h d (by simp [hd'])) hq hd
+    simp only [List.cons_append, Strings.selLoop, hq, hd, f1, f2]
+    simp only [Bool.false_and, Bool.not_false, Bool.true_and, Bool.or_self, Bool.false_eq_true, if_false]
+    rw [ih]; congr 1; simp only [List.length_cons]; omega
+
+theorem joinWords_cons2 (w w' : Bytes) (rest : List Bytes) :
+    Spec.joinWords (w :: w' :: rest) = w ++ 32 :: Spec.joinWords (w' :: rest) := by
+  simp [Spec.joinWords]
+
+theorem joinWords_head (w : Bytes) (rest : List Bytes) (hw : w ≠ []) :
+    ∃ c u, w = c :: u ∧ ∃ t, Spec.joinWords (w :: rest) = c :: u ++ t := by
+  cases w with
+  | nil => exact absurd rfl hw
+  | cons c u =>
+    refine ⟨c, u, rfl, ?_⟩
+    cases rest with
+    | nil => exact ⟨[], by simp [Spec.joinWords]⟩
+    | cons w' r => exact ⟨32 :: Spec.joinWords (w' :: r), by rw [joinWords_cons2]⟩
+
+theorem sel_words (idx : Int) : ∀ (ws : List Bytes) (pre : Bytes) (j : Int), ws ≠ [] →
+    (∀ w ∈ ws, Spec.IsWord w) →
+    Strings.selLoop (pre ++ Spec.joinWords ws) idx (Spec.joinWords ws) pre.length
+        { currIdx := j, wordStart := pre.length, inDelim := false, quoted := false } =
+      (if j ≤ idx then ws.getD (idx - j).toNat [] else [])
+  | [], _, _, h, _ => absurd rfl h
+  | [w], pre, j, _, hw => by
+    have hclean : ∀ c ∈ w, WordB c := (hw w (by simp)).2
+    have := sel_word (pre ++ w) idx w [] pre.length
+      { currIdx := j, wordStart := pre.length, inDelim := false, quoted := false } hclean rfl rfl
+    simp only [List.append_nil] at this
+    simp only [Spec.joinWords, this, Strings.selLoop]
+    by_cases hj : j = idx
+    · subst hj; simp
+    · simp only [hj, if_false]
+      by_cases hle : j ≤ idx
+      · have : (idx - j).toNat ≠ 0 := by omega
+        simp only [hle, if_true]
+        cases hn : (idx - j).toNat with
+        | zero => exact absurd hn this
+        | succ n => simp [List.getD]
+      · simp [hle]
+  | w :: w' :: rest, pre, j, _, hw => by
+    have hclean : ∀ c ∈ w, WordB c := (hw w (by simp)).2
+    have hw'ne : w' ≠ [] := (hw w' (by simp)).1
+    rw [joinWords_cons2]
+    have hW := sel_word (pre ++ (w ++ 32 :: Spec.joinWords (w' :: rest))) idx w
+      (32 :: Spec.joinWords (w' :: rest)) pre.length
+      { currIdx := j, wordStart := pre.length, inDelim := false, quoted := false } hclean rfl rfl
+    rw [hW]
+    by_cases hj : j = idx
+    · subst hj
+      have d32 : Strings.isSelDelim 32 = true := by decide
+      simp [Strings.selLoop, d32]
+    · obtain ⟨c, u, hcu, t, ht⟩ := joinWords_head w' rest hw'ne
+      have hcB : WordB c := (hw w' (by simp)).2 c (by simp [hcu])
+      obtain ⟨f1, f2⟩ := wordB_facts hcB
+      have ih := sel_words idx (w' :: rest) (pre ++ w ++ [32]) (j + 1) (by simp)
+        (fun x hx => hw x (by simp at hx ⊢; rcases hx with e | e <;> simp [e]))
+      have hs : pre ++ (w ++ 32 :: Spec.joinWords (w' :: rest)) = pre ++ w ++ [32] ++ Spec.joinWords (w' :: rest) := by
+        simp
+      rw [hs]
+      rw [ht] at ih ⊢
+      have d32 : Strings.isSelDelim 32 = true := by decide
+      have q32 : ((32 : UInt8) == 34) = false := by decide
+      simp only [Strings.selLoop, d32, q32, hj, f1, f2, List.cons_append] at ih ⊢
+      simp only [Bool.false_and, Bool.not_false, Bool.true_and, Bool.or_self, Bool.false_eq_true, if_false,
+        Bool.or_true, if_true] at ih ⊢
+      have hl : (pre ++ w ++ [32]).length = pre.length + w.length + 1 := by simp; omega
+      rw [hl] at ih
+      rw [ih]
+      by_cases hle : j ≤ idx
+      · have h1 : j + 1 ≤ idx := by omega
+        have h2 : (idx - j).toNat = (idx - (j + 1)).toNat + 1 := by omega
+        simp [hle, h1, h2, List.getD]
+      · have h1 : ¬ (j + 1 ≤ idx) := by omega
+        simp [hle, h1]
+
 end Rare.C11
